@@ -20,6 +20,7 @@ func init() {
 		Rules: []RuleDef{
 			{ID: "C09.R1", Text: "identity sequence built ascending; every chunk is param[start:end] with start(i+1)=end(i), start(0)=0 — contiguous ascending sweep, no copy/reorder", Run: c09r1},
 			{ID: "C09.R2", Text: "member's set = ChunkSlice(all, info.TotalMembers)[info.MemberNumber-1], info from one GetInfo() call, returned as is", Run: c09r2},
+			{ID: "C09.R4", Text: "the ownership test and the close loop agree with the assigned chunk: In ⇔ Start ≤ vbID ≤ End (a one-vBucket range is not empty), range = [first, last] of the chunk, streams closed for Start..End inclusive (same rules as C04.R2, C13.R8)", Run: func(c *Ctx, id string) { c04r2(c, id); closeAllRange(c, id) }},
 			{ID: "C09.R3", Text: "purity: no globals, goroutines, map ranges; ChunkSlice calls only builtins; Get calls only GetInfo, ChunkSlice and the logger", Run: c09r3},
 		},
 	})
